@@ -598,45 +598,45 @@ open LccModel.Report LccModel.Session
 /-! ### From programs to `runTask` -/
 
 /-- the state a task starts from -/
-def ts0 (insts : Insts) (cut fl : Option Nat) : TS :=
+def ts0 (insts : Insts) (cut : Option Nat) : TS :=
   { sess := Session.St.init, out := #[], acts := 0, cut := cut, nextChild := 1, insts := insts,
-    abortedSuites := [], abortAll := false, err := none, ptLog := [], failLookupsFrom := fl }
+    abortedSuites := [], abortAll := false, err := none }
 
 /-- the final interpreter state of a task -/
 def finalTS (P : Proj) (insts : Insts) (w : Nat) (t : TaskId) (run reason : Bool) (kept : List Td)
-    (cut fl : Option Nat) : TS :=
-  (exec (taskProgram P (allSuites P) w t run reason kept) (ts0 insts cut fl)).2
+    (cut : Option Nat) : TS :=
+  (exec (taskProgram P (allSuites P) w t run reason kept) (ts0 insts cut)).2
 
 theorem runTask_items (P : Proj) (insts : Insts) (w : Nat) (t : TaskId) (run reason : Bool) (kept : List Td)
-    (cut fl : Option Nat) :
-    (runTask P insts w t run reason kept cut fl).items = (finalTS P insts w t run reason kept cut fl).out.toList := rfl
+    (cut : Option Nat) :
+    (runTask P insts w t run reason kept cut).items = (finalTS P insts w t run reason kept cut).out.toList := rfl
 
 theorem runTask_res (P : Proj) (insts : Insts) (w : Nat) (t : TaskId) (run reason : Bool) (kept : List Td)
-    (cut fl : Option Nat) :
-    (runTask P insts w t run reason kept cut fl).res =
-      (exec (taskProgram P (allSuites P) w t run reason kept) (ts0 insts cut fl)).1.1 := rfl
+    (cut : Option Nat) :
+    (runTask P insts w t run reason kept cut).res =
+      (exec (taskProgram P (allSuites P) w t run reason kept) (ts0 insts cut)).1.1 := rfl
 
 theorem runTask_kept (P : Proj) (insts : Insts) (w : Nat) (t : TaskId) (run reason : Bool) (kept : List Td)
-    (cut fl : Option Nat) :
-    (runTask P insts w t run reason kept cut fl).eff.kept =
-      (exec (taskProgram P (allSuites P) w t run reason kept) (ts0 insts cut fl)).1.2 := rfl
+    (cut : Option Nat) :
+    (runTask P insts w t run reason kept cut).eff.kept =
+      (exec (taskProgram P (allSuites P) w t run reason kept) (ts0 insts cut)).1.2 := rfl
 
 /-- what a `Tr` statement about the task's program says about the task's output -/
 theorem runTask_of_tr {J J' : St → Prop} {Φ : List Item → Prop} (P : Proj) (insts : Insts) (w : Nat) (t : TaskId)
-    (run reason : Bool) (kept : List Td) (cut fl : Option Nat)
+    (run reason : Bool) (kept : List Td) (cut : Option Nat)
     (h : Tr J J' Φ (taskProgram P (allSuites P) w t run reason kept)) (hj : J St.init) :
-    Φ (runTask P insts w t run reason kept cut fl).items ∧
-    J' (finalTS P insts w t run reason kept cut fl).sess ∧
-    (finalTS P insts w t run reason kept cut fl).sess.fired =
-      (runTask P insts w t run reason kept cut fl).items.filterMap evOf := by
-  obtain ⟨h1, new, h2, h3⟩ := h (ts0 insts cut fl) hj
-  have ho : (finalTS P insts w t run reason kept cut fl).out.toList = new := by
+    Φ (runTask P insts w t run reason kept cut).items ∧
+    J' (finalTS P insts w t run reason kept cut).sess ∧
+    (finalTS P insts w t run reason kept cut).sess.fired =
+      (runTask P insts w t run reason kept cut).items.filterMap evOf := by
+  obtain ⟨h1, new, h2, h3⟩ := h (ts0 insts cut) hj
+  have ho : (finalTS P insts w t run reason kept cut).out.toList = new := by
     have := h2.out
-    have h0 : (ts0 insts cut fl).out.toList = [] := rfl
+    have h0 : (ts0 insts cut).out.toList = [] := rfl
     rw [h0, List.nil_append] at this; exact this
-  have hf : (finalTS P insts w t run reason kept cut fl).sess.fired = new.filterMap evOf := by
+  have hf : (finalTS P insts w t run reason kept cut).sess.fired = new.filterMap evOf := by
     have := h2.fired
-    have h0 : (ts0 insts cut fl).sess.fired = [] := rfl
+    have h0 : (ts0 insts cut).sess.fired = [] := rfl
     rw [h0, List.nil_append] at this; exact this
   rw [runTask_items, ho]
   exact ⟨h3, h1, hf⟩
